@@ -45,6 +45,7 @@ a4a3235 C18
 3b2934b C12
 3ab4ce6 C19
 REV
+# (601fd12 is a race that the quick tier does not force: not in the list)
 grep -E "$FILTER" "$list" > "$list.f"
 run_one() {
   kind="$1"; name="$2"; prop="$3"; arg="$4"
